@@ -33,7 +33,8 @@ MANIFEST = {
     'technique': ('mutation-set vs dump/load coverage per designer class (assignments exact; '
                   'call-mutations by purity summary of repo classes plus a short external table), '
                   'alias re-pointing check, key-set comparison of dump/load and encoder/decoder, '
-                  'call-signature compatibility of the designer factories with the policy'),
+                  'call-signature compatibility of the designer factories with the policy'
+                  '; JSON order (sort_keys vs iterating loader), lossless NumpyEncoder value chain, whole RNG state, totality of load() over monotone counters; shared C12.R6'),
     'level_text': (
         'Static: everything suggest/update can change is serialised and restored (or rebuilt from '
         'what is), keys agree on both sides, every stateful designer is hosted by the '
